@@ -21,6 +21,8 @@ def run_seed(d):
     prop = meta.get('property') or sid[:3].upper()
     meta['id'] = sid
     meta['property'] = prop
+    if meta.get('superseded'):
+        return meta
     wt = '/tmp/vfseedrun.%d' % os.getpid()
     sh('git -C /repo worktree remove --force %s' % wt)
     r = sh('git -C /repo worktree add -q --detach %s HEAD' % wt)
@@ -61,6 +63,9 @@ def readme():
             continue
         m = json.load(open(mp))
         det = m.get('detected', {})
+        if m.get('superseded'):
+            rows.append('| %s | %s | %s | %s | (superseded: %s) |' % (m.get('id'), m['property'], ', '.join(m.get('files_changed', [])), (m.get('needs') or '').replace('|', '/'), m['superseded'][:160].replace('|', '/')))
+            continue
         caught = ', '.join('%s (%s)' % (k, (v['first_signatures'] or ['?'])[0][:70]) for k, v in det.items() if v['exit'] == 1) or 'NOT DETECTED'
         rows.append('| %s | %s | %s | %s | %s |' % (m.get('id', os.path.basename(d.rstrip('/'))), m['property'], ', '.join(m.get('files_changed', [])), (m.get('needs') or '').replace('|', '/'), caught.replace('|', '/')))
     out = ['# Seeded property-breaking changes', '',
